@@ -174,15 +174,42 @@ def main(tier, seed):
     run.set(tlc_behaviours_replayed=traces)
 
     # ---- all ordered pairs (second query judged), plus pairs with a conversion in between
-    seconds = qs if thorough else rng.sample(qs, 12) + [q for q in qs if q["op"] == "SP" and q["x"] in ("below", "above")]
     npairs = 0
-    for q1 in qs:
-        for q2 in seconds:
-            iso = build()
-            do_query(iso, q1)
-            step_check(run, iso, q2, [q1], table.get(qname(q2)))
-            run.count(("pair", qname(q1), qname(q2)))
-            npairs += 1
+
+    def pair(q1, q2):
+        nonlocal npairs
+        iso = build()
+        do_query(iso, q1)
+        step_check(run, iso, q2, [q1], table.get(qname(q2)))
+        run.count(("pair", qname(q1), qname(q2)))
+        npairs += 1
+
+    if thorough:
+        for q1 in qs:
+            for q2 in qs:
+                pair(q1, q2)
+    else:
+        # covering slice: a cache defect shows when the first query builds an interpolator whose key differs
+        # from the second query's in ONE component (or when spreading_pressure_at built it): all such pairs
+        # for second queries outside the data range or at a data point, plus seeded random pairs
+        def neighbours(q2):
+            out = []
+            for f in ("nofill", "num", "extrap"):
+                for b in ("ads", "des"):
+                    for k in ("linear", "nearest", "cubic"):
+                        diff = (f != q2["f"]) + (b != q2["b"]) + (k != q2["k"])
+                        if diff == 1:
+                            for op in ("LA", "PA"):
+                                out.append({"op": op, "b": b, "k": k, "f": f, "x": "interior"})
+                    out.append({"op": "SP", "b": b, "k": "linear", "f": f, "x": "last"})
+                    out.append({"op": "SP", "b": b, "k": "linear", "f": f, "x": "above"})
+            return out
+        for q2 in qs:
+            if q2["x"] in ("below", "above", "first"):
+                for q1 in neighbours(q2):
+                    pair(q1, q2)
+        for _ in range(600):
+            pair(rng.choice(qs), rng.choice(qs))
     for q1 in (qs if thorough else rng.sample(qs, 40)):
         for q2 in rng.sample(qs, 6):
             iso = build()
